@@ -42,7 +42,7 @@ ASSUMPTIONS = [
 SHARDS = {"quick": 16, "thorough": 16}
 TIMEOUT = {"quick": 900, "thorough": 7200}
 MIN_CASES = {"quick": 3000, "thorough": 40000}
-REQUIRED_COUNTERS = ["pairing_roundtrips", "database_roundtrips", "fixtures_roundtripped", "unparsable_caches_tolerated", "crash_points_injected", "crash_points_survived", "file_ops_enumerated"]
+REQUIRED_COUNTERS = ["pairing_roundtrips", "database_roundtrips", "fixtures_roundtripped", "unparsable_caches_tolerated", "crash_points_injected", "crash_points_survived", "file_ops_enumerated", "database_update_histories"]
 
 
 def tmpdir():
@@ -308,6 +308,50 @@ def database_roundtrip(ctx, entity_map, label, rng, transport="IP") -> None:
         ctx.count("database_roundtrips")
         if "fixture" in label:
             ctx.count("fixtures_roundtripped")
+        # ---- a HISTORY of later updates on the same pairing (the paths the transports use: set the field, then
+        # _update_accessories_state_cache / _update_cached_state_num), a restart after each: the LAST saved values survive ----
+        cur = {"config_num": config_num, "state_num": state_num, "bkey": bkey}
+        for step in range(rng.randint(1, 4)):
+            what = rng.choice(["state_num", "state_num", "bkey", "config_num", "value", "nothing"])
+            st = p1._accessories_state
+            try:
+                if what == "state_num":
+                    cur["state_num"] = (cur["state_num"] or 0) + rng.choice([1, 1, 2, 200])
+                    if transport == "BLE" and hasattr(p1, "_update_cached_state_num"):
+                        p1._update_cached_state_num(cur["state_num"])
+                    else:
+                        st.state_num = cur["state_num"]
+                        p1._update_accessories_state_cache()
+                elif what == "bkey":
+                    cur["bkey"] = rng.randbytes(32)
+                    st.broadcast_key = cur["bkey"]
+                    p1._update_accessories_state_cache()
+                elif what == "config_num":
+                    cur["config_num"] = (cur["config_num"] + rng.choice([1, 5])) % 65536
+                    st.config_num = cur["config_num"]
+                    p1._update_accessories_state_cache()
+                elif what == "value":
+                    chars = [c for a in p1.accessories for sv in a.services for c in sv.characteristics if isinstance(c._value, (int, str)) and not isinstance(c._value, bool)]
+                    if chars:
+                        c = rng.choice(chars)
+                        c._value = (c._value + 1) if isinstance(c._value, int) else c._value + "x"
+                    p1._update_accessories_state_cache()
+                else:
+                    p1._update_accessories_state_cache()
+                want_digest = model_digest(p1.accessories)
+                c3 = make_controller(CharacteristicCacheFile(path))
+                p3 = c3.load_pairing("a", copy.deepcopy(pd))
+            except Exception as ex:  # noqa: BLE001
+                ctx.violation(f"database-update-history-raises-{type(ex).__name__}", f"{label}: step {step} ({what}): {ex!r}", replay)
+                return
+            got = (p3.config_num, p3.state_num, p3.broadcast_key)
+            if got != (cur["config_num"], cur["state_num"], cur["bkey"]):
+                ctx.violation("database-update-lost-by-restart", f"{label}: after update #{step} of {what}: reloaded config/state/key {str(got)[:80]} != last saved {str((cur['config_num'], cur['state_num'], cur['bkey']))[:80]}", replay)
+                return
+            if p3.accessories is None or model_digest(p3.accessories) != want_digest:
+                ctx.violation("database-update-lost-by-restart", f"{label}: after update #{step} of {what}: reloaded database differs from the last saved one", replay)
+                return
+            ctx.count("database_update_histories")
     finally:
         shutil.rmtree(d, ignore_errors=True)
 
